@@ -179,6 +179,8 @@ impl Prop for C03 {
             o.excl_f9_pow2_object = false;
             o.excl_f5_global_logical_assign_in_operand = !std::env::var_os("BV_F5_OFF").is_some();
             o.excl_f17_catch_in_finally = false;
+                o.excl_f28_destructure_exhausted_iterator = false;
+                o.excl_f29_broken_iterator_in_pattern = false;
         };
         let rest = &tape[tape.len().min(4)..];
         let gen_prog = |t: &mut Tape<'_>| {
@@ -207,7 +209,7 @@ impl Prop for C03 {
             "special" => {
                 let src = match t.below(4) {
                     0 => asyncp::generate(rest).src,
-                    1 => ic::generate(rest, &ic::IcOpts { excl_f10_proto_shape_change: false, excl_f23_array_length_store: false, excl_f24_shape_change_in_accessor: false }).src,
+                    1 => ic::generate(rest, &ic::IcOpts { excl_f10_proto_shape_change: false, excl_f23_array_length_store: false, excl_f24_shape_change_in_accessor: false, excl_f31_own_shadow_on_unique_shape: false }).src,
                     2 => limits::generate(rest).src,
                     _ => wild::generate(rest).src,
                 };
